@@ -258,60 +258,66 @@ def allocSeq (act : List Nat) (used : List String) : Option (SeqAlloc × List St
                       | none => none
                       | some (b2, u4) => some (⟨L, q, b, s, t, e, J, a1, a2, b1, b2⟩, u4)
 
+/-- corrections inside the per-pair loop (only when expected): index register and inner loop
+register are the lowest inactive ones again (the wait registers have been released) -/
+def seqCorr (d : Data) (c : Config) (move : Bool) (a : SeqAlloc) (u4 : List String) :
+    Option (List Cmd × List String) :=
+  let act3 := a.b :: a.q :: a.L :: c.act
+  if !c.expect then some ([], u4)
+  else match getInactive act3 with
+    | none => none
+    | some I => match getInactive (I :: act3) with
+      | none => none
+      | some J => match newLabel u4 "LOOP" with
+        | none => none
+        | some (l1, u5) => match newLabel u5 "LOOP_EXIT" with
+          | none => none
+          | some (l2, u6) => match newLabel u6 "IF_EXIT" with
+            | none => none
+            | some (x1, u7) => match newLabel u7 "IF_EXIT" with
+              | none => none
+              | some (x2, u8) => match newLabel u8 "IF_EXIT" with
+                | none => none
+                | some (x3, u9) =>
+                  some (corrBlockCode (if move then d.tMove else d.tPost) d.ly d.sp
+                          a.q a.b a.L I J l1 l2 x1 x2 x3 c.ids c.res, u9)
+
+/-- `with loop_reg.if_ne(number - 1)`: move the state to its memory qubit and free qubit 0 -/
+def seqTail (c : Config) (move : Bool) (a : SeqAlloc) (u9 : List String) :
+    Option (List Cmd × List String) :=
+  let act3 := a.b :: a.q :: a.L :: c.act
+  if !move then some ([], u9)
+  else match getInactive act3 with
+    | none => none
+    | some r0 => match getInactive (r0 :: act3) with
+      | none => none
+      | some r1 => match newLabel u9 "IF_EXIT" with
+        | none => none
+        | some (x4, u10) =>
+          some ([ .beq (.r a.L) (.imm ((c.n : Int) - 1)) x4,
+                  .sub r0 (.imm ((c.n : Int) - 1)) (.r a.L), .set r1 0, .mov r1 r0, .qfree r1,
+                  .label x4 ], u10)
+
 /-- the loop of `_build_cmds_post_epr` (empty post routine) and of
 `_build_cmds_wait_move_epr_to_mem` -/
 def emitSeq (d : Data) (c : Config) (move : Bool) : Option (List Cmd) :=
-  let head : List Cmd := [ .recvEpr c.remote c.sock (some c.ids) c.res ]
   match allocSeq c.act c.labels with
   | none => none
   | some (a, u4) =>
-    let act3 := a.b :: a.q :: a.L :: c.act
-    let wait := waitBlockCode d.ly a.L a.s a.t a.e a.J a.a1 a.a2 a.b1 a.b2 c.res
-    -- corrections (only when expected): index register and inner loop register are the lowest
-    -- inactive ones again (the wait registers have been released)
-    let corr : Option (List Cmd × List String) :=
-      if !c.expect then some ([], u4)
-      else match getInactive act3 with
-        | none => none
-        | some I => match getInactive (I :: act3) with
-          | none => none
-          | some J => match newLabel u4 "LOOP" with
-            | none => none
-            | some (l1, u5) => match newLabel u5 "LOOP_EXIT" with
-              | none => none
-              | some (l2, u6) => match newLabel u6 "IF_EXIT" with
-                | none => none
-                | some (x1, u7) => match newLabel u7 "IF_EXIT" with
-                  | none => none
-                  | some (x2, u8) => match newLabel u8 "IF_EXIT" with
-                    | none => none
-                    | some (x3, u9) =>
-                      some (corrBlockCode (if move then d.tMove else d.tPost) d.ly d.sp
-                              a.q a.b a.L I J l1 l2 x1 x2 x3 c.ids c.res, u9)
-    match corr with
+    match seqCorr d c move a u4 with
     | none => none
     | some (corrCmds, u9) =>
-      let tail : Option (List Cmd × List String) :=
-        if !move then some ([], u9)
-        else match getInactive act3 with
-          | none => none
-          | some r0 => match getInactive (r0 :: act3) with
-            | none => none
-            | some r1 => match newLabel u9 "IF_EXIT" with
-              | none => none
-              | some (x4, u10) =>
-                some ([ .beq (.r a.L) (.imm ((c.n : Int) - 1)) x4,
-                        .sub r0 (.imm ((c.n : Int) - 1)) (.r a.L), .set r1 0, .mov r1 r0, .qfree r1,
-                        .label x4 ], u10)
-      match tail with
+      match seqTail c move a u9 with
       | none => none
       | some (tailCmds, u10) => match newLabel u10 "LOOP" with
         | none => none
         | some (l3, u11) => match newLabel u11 "LOOP_EXIT" with
           | none => none
           | some (l4, _) =>
-            some (head ++ [ .set a.L 0, .label l3, .beq (.r a.L) (.imm c.n) l4 ]
-                  ++ wait ++ corrCmds ++ tailCmds
+            some ([ .recvEpr c.remote c.sock (some c.ids) c.res,
+                    .set a.L 0, .label l3, .beq (.r a.L) (.imm c.n) l4 ]
+                  ++ waitBlockCode d.ly a.L a.s a.t a.e a.J a.a1 a.a2 a.b1 a.b2 c.res
+                  ++ corrCmds ++ tailCmds
                   ++ [ .add a.L a.L (.imm 1), .jmp l3, .label l4 ])
 
 def emitMeasure (d : Data) (c : Config) : Option (List Cmd) :=
